@@ -21,7 +21,7 @@ class C13(Prop):
     design_ref = '§5 C13'
     rule = ('a real endpoint (either role) with a stream opened by either side, then a request of any of the four types on that same id, replayed on the engine model; histories of allocate(+register) / allocate-only / register(id) / finish(id) / query(id) on the real StreamControl with '
             '_maximum_stream_id = 2^k-1 (k in 3,4,7 random; k=3 exhaustive up to length 5; k=31 starting near the wrap); '
-            'a case is non-trivial when at least one allocation skipped a live id or 0, wrapped, or failed; distinct = distinct (k, first, ops, start)')
+            'histories in which stop_all_streams() runs over streams whose owners register a new stream at once (the ids registered during the sweep stay reserved); a case is non-trivial when at least one allocation skipped a live id or 0, wrapped, or failed; distinct = distinct (k, first, ops, start)')
     assumptions = ['ids are handed out only by StreamControl.allocate_stream', 'dict membership is the liveness test']
 
     def cases(self, rng, tier):
@@ -68,12 +68,74 @@ class C13(Prop):
             out.append({'mode': 'endpoint', 'role': rng.choice(['client', 'server']), 'first_by': rng.choice(['peer', 'peer', 'local']),
                         'first_ty': rng.choice(['stream', 'channel', 'rr']), 'second_ty': rng.choice(['REQUEST_RESPONSE', 'REQUEST_STREAM', 'REQUEST_CHANNEL', 'REQUEST_FNF']),
                         'between': rng.randint(0, 2)})
+        # "stop everything in flight" with applications that retry at once: streams allocated and registered while stop_all_streams() is walking
+        # over the old ones are active, so their ids stay reserved afterwards
+        for _ in range(300 if tier == 'quick' else 6000):
+            k = rng.choice([3, 3, 4])
+            pre = rng.randint(1, (1 << (k - 1)) - 1)
+            out.append({'mode': 'sweep', 'k': k, 'first': rng.choice([1, 2]), 'pre': pre, 'retry': [rng.random() < 0.6 for _ in range(pre)],
+                        'ops': [rng.choice(['a', 'a', 'a', 'o', 'f%d' % rng.randint(1, 1 << k), 'q%d' % rng.randint(1, (1 << k) - 1)]) for _ in range(rng.randint(1, 10))]})
         return out
+
+    def _sweep(self, case):
+        from rsocket.stream_control import StreamControl
+        from rsocket.handlers.interfaces import Requester
+        from rsocket.disposable import Disposable
+        from rsocket.exceptions import RSocketStreamAllocationFailure, RSocketStreamIdInUse
+        sc = StreamControl(case['first'])
+        sc._maximum_stream_id = (1 << case['k']) - 1
+        sc._current_stream_id &= sc._maximum_stream_id
+        swept, errors = [], []
+
+        class Plain(Requester, Disposable):
+            def frame_received(self, frame):
+                pass
+
+            def dispose(self):
+                pass
+
+        class Retrying(Plain):
+            def frame_received(self, frame):
+                # the application's subscriber reacts to the error by issuing its retry: a new stream
+                try:
+                    i = sc.allocate_stream()
+                    sc.register_stream(i, Plain())
+                    swept.append(i)
+                except RSocketStreamAllocationFailure:
+                    errors.append('X')
+        pre_ids = []
+        for r in case['retry']:
+            i = sc.allocate_stream()
+            sc.register_stream(i, Retrying() if r else Plain())
+            pre_ids.append(i)
+        sc.stop_all_streams()
+        outs = []
+        for op in case['ops']:
+            if op in ('a', 'o'):
+                try:
+                    i = sc.allocate_stream()
+                    if op == 'a':
+                        sc.register_stream(i, Plain())
+                    outs.append('A%d' % i)
+                except RSocketStreamAllocationFailure:
+                    outs.append('X')
+            elif op[0] == 'f':
+                sc.finish_stream(int(op[1:]))
+                outs.append('F')
+            else:
+                try:
+                    sc.assert_stream_id_available(int(op[1:]))
+                    outs.append('Q1')
+                except RSocketStreamIdInUse:
+                    outs.append('Q0')
+        return {'mode': 'sweep', 'pre_ids': pre_ids, 'swept': swept, 'outs': outs, 'active': sorted(sc._streams)}
 
     def run_impl(self, case):
         if case.get('mode') == 'endpoint':
             from harness import detloop
             return detloop.run(self._endpoint, case)
+        if case.get('mode') == 'sweep':
+            return self._sweep(case)
         from rsocket.stream_control import StreamControl
         from rsocket.exceptions import RSocketStreamAllocationFailure, RSocketStreamIdInUse
         k = case['k']
@@ -145,6 +207,8 @@ class C13(Prop):
         return {'mode': 'endpoint', 'sid': sid, 'steps': steps, 'table': table}
 
     def model_lines(self, case, obs):
+        if case.get('mode') == 'sweep':
+            return []
         if case.get('mode') == 'endpoint':
             first = 2 if case['role'] == 'server' else 1
             return ['eng %d 0 %s' % (first, ' '.join(m for m, _ in obs['steps']))]
@@ -152,6 +216,8 @@ class C13(Prop):
         return ['sid %d %d %s %s' % (case['k'], obs['cur0'], live, _ops_str(case['ops']))]
 
     def compare(self, case, obs, answers):
+        if case.get('mode') == 'sweep':
+            return None
         if case.get('mode') == 'endpoint':
             from harness import engine
             body = answers[0].split(' || ')[0]
@@ -178,6 +244,34 @@ class C13(Prop):
             if sid not in obs['table']:
                 fails.append({'signature': 'existing-stream-replaced-or-dropped', 'what': 'stream %d is no longer registered after the rejected request (table %s)' % (sid, obs['table'])})
             return fails
+        if case.get('mode') == 'sweep':
+            fails = []
+            active = set(obs['swept'])
+            mod = 1 << case['k']
+            par = case['first'] % 2
+            for op, out in zip(case['ops'], obs['outs']):
+                if op in ('a', 'o'):
+                    if out.startswith('A'):
+                        i = int(out[1:])
+                        if i in active:
+                            fails.append({'signature': 'allocated-live-id', 'what': 'streams %s were registered while stop_all_streams() was walking over %s and are active; a later allocation handed out %d again' % (obs['swept'], obs['pre_ids'], i)})
+                        if i == 0 or i % 2 != par or i >= mod:
+                            fails.append({'signature': 'wrong-parity', 'what': 'allocated id %d (first id %d, %d-bit space)' % (i, case['first'], case['k'])})
+                        if op == 'a':
+                            active.add(i)
+                    elif [x for x in range(par if par else 2, mod, 2) if x not in active]:
+                        fails.append({'signature': 'spurious-allocation-failure', 'what': 'allocation failed although an id is free (active %s)' % sorted(active)})
+                elif op[0] == 'f':
+                    active.discard(int(op[1:]))
+                else:
+                    i = int(op[1:])
+                    if (out == 'Q1') != (i not in active):
+                        fails.append({'signature': 'availability-wrong', 'what': 'streams %s were registered while stop_all_streams() was walking over %s; afterwards assert_stream_id_available(%d) answered %s with active=%s' % (
+                            obs['swept'], obs['pre_ids'], i, out, sorted(active))})
+            if sorted(active) != obs['active']:
+                fails.append({'signature': 'active-stream-dropped-from-table', 'what': 'streams %s were registered while stop_all_streams() was walking over %s; the table holds %s at the end, the active streams are %s' % (
+                    obs['swept'], obs['pre_ids'], obs['active'], sorted(active))})
+            return fails[:2]
         fails = []
         k = case['k']
         mod = 1 << k
@@ -229,6 +323,8 @@ class C13(Prop):
         import json
         if case.get('mode') == 'endpoint':
             return json.dumps(case, sort_keys=True)
+        if case.get('mode') == 'sweep':
+            return json.dumps(case, sort_keys=True) if obs['swept'] else None
         interesting = False
         prev = obs['cur0']
         for op, out in zip(case['ops'], obs['outs']):
@@ -245,6 +341,10 @@ class C13(Prop):
         if case.get('mode') == 'endpoint':
             yield 'mode=endpoint'
             yield 'first_by=' + case['first_by']
+            return
+        if case.get('mode') == 'sweep':
+            yield 'mode=sweep'
+            yield 'registered-during-sweep=%d' % len(obs['swept'])
             return
         yield 'k=%d' % case['k']
         yield 'first=%d' % case['first']
@@ -267,6 +367,10 @@ class C13(Prop):
         if case.get('mode') == 'endpoint':
             if case['between']:
                 yield dict(case, between=case['between'] - 1)
+            return
+        if case.get('mode') == 'sweep':
+            for i in range(len(case['ops'])):
+                yield dict(case, ops=case['ops'][:i] + case['ops'][i + 1:])
             return
         ops = case['ops']
         for i in range(len(ops)):
